@@ -482,7 +482,7 @@ class Component:
 
     def __init__(self, name, harness, srcs, pmodel_args, gen, nontrivial, rule, corpus=None,
                  cpu=None, extra=(), ldflags=(), env=None, sanitize=True, opt=None, classify=None,
-                 impl_cmd_extra=(), ignore_l2=False, monitor_args=None):
+                 impl_cmd_extra=(), ignore_l2=False, monitor_args=None, fresh_process=False):
         self.__dict__.update(locals())
 
 
@@ -512,8 +512,13 @@ def run_cases(ctx, comp, exe, cases, count=True):
     env = dict(ASAN_ENV)
     if comp.env:
         env.update(comp.env)
-    nshards = min(NCPU, max(1, len(cases) // 50))
-    shards = [cases[i::nshards] for i in range(nshards)]
+    if getattr(comp, "fresh_process", False):
+        # one process per case: state that survives across calls (statics, caches, lazily built tables) starts fresh
+        nshards = len(cases)
+        shards = [[c] for c in cases]
+    else:
+        nshards = min(NCPU, max(1, len(cases) // 50))
+        shards = [cases[i::nshards] for i in range(nshards)]
     import concurrent.futures as cf
 
     def work(k):
@@ -539,7 +544,7 @@ def run_cases(ctx, comp, exe, cases, count=True):
         return io, ic, mo, mc, vo
 
     fails = []
-    with cf.ThreadPoolExecutor(max_workers=nshards) as ex:
+    with cf.ThreadPoolExecutor(max_workers=max(1, min(nshards, NCPU))) as ex:
         results = list(ex.map(work, range(nshards)))
     for k, (io, ic, mo, mc, vo) in enumerate(results):
         sh = shards[k]
